@@ -752,7 +752,9 @@ class Opaque(Type):
         # actual type or a row variable.
         args = [cast(model.Term, arg.to_model()) for arg in self.args]
 
-        return model.Apply(self.id, args)
+        # same qualified name as the resolved `ExtType` exports
+        name = f"{self.extension}.{self.id}" if self.extension else self.id
+        return model.Apply(name, args)
 
 
 @dataclass
